@@ -176,6 +176,7 @@ class Run:
         self.order = []  # keys of outcomes in completion order
         self.faults_fired = {}
         self.fired_excs = []
+        self.max_events = MAX_EVENTS
         self.txs = []
         self.injected = []
         self.suspensions = 0
@@ -208,7 +209,7 @@ class Run:
     def ev(self, kind, sid, xid, detail):
         a = _ACTOR.get()
         n = len(self.log)
-        if n >= MAX_EVENTS:
+        if n >= self.max_events:
             self.aborted = "events"
             raise Abort("events")
         self.log.append((n, a.name if a is not None else "-", kind, sid, xid, detail))
@@ -642,11 +643,21 @@ class World:
         self.objects = {}
         self.contracts = {}  # sid -> the Contract/Snapshot object created for it
         for fs in spec.get("funcs", ()):
-            self.funcs[fs["name"]] = self._build_func(fs)
-            self.fspec[fs["name"]] = fs
+            self.add_func(fs)
         for cs in spec.get("classes", ()):
-            self.cspec[cs["name"]] = cs
-            self.classes[cs["name"]] = self._build_class(cs)
+            self.add_class(cs)
+
+    def add_func(self, fs):
+        f = self._build_func(fs)
+        self.funcs[fs["name"]] = f
+        self.fspec[fs["name"]] = fs
+        return f
+
+    def add_class(self, cs):
+        cls = self._build_class(cs)
+        self.cspec[cs["name"]] = cs
+        self.classes[cs["name"]] = cls
+        return cls
 
     # -- contract pieces ----------------------------------------------------------------------
     def _error_kw(self, sid, form, for_inv):
@@ -674,116 +685,54 @@ class World:
 
             else:
 
-                def err(t):
+                def err():
                     return run.hit_err(sid + "/err", "err")
 
             return {"error": err}
         raise HarnessError("unknown error form %r" % form)
 
-    def _cond(self, sid, kind, c, has_old):
+    def _fn(self, name, params, style, sid, kind):
+        """A generated condition/capture with the given parameter names that hands over to run.hit/ahit."""
         run = self.run
-        style = c.get("style", "sync")
-        if kind == "pre":
-            if style == "sync":
-
-                def cond(t):
-                    return run.hit(sid, "pre")
-
-            elif style == "async":
-
-                async def cond(t):
-                    return await run.ahit(sid, "pre")
-
-            else:
-
-                def cond(t):
-                    return run.ahit(sid, "pre")
-
-        else:
-            if has_old:
-                if style == "sync":
-
-                    def cond(t, result, OLD):
-                        run.see_old(OLD)
-                        return run.hit(sid, "post")
-
-                elif style == "async":
-
-                    async def cond(t, result, OLD):
-                        run.see_old(OLD)
-                        return await run.ahit(sid, "post")
-
-                else:
-
-                    def cond(t, result, OLD):
-                        run.see_old(OLD)
-                        return run.ahit(sid, "post")
-
-            else:
-                if style == "sync":
-
-                    def cond(t, result):
-                        return run.hit(sid, "post")
-
-                elif style == "async":
-
-                    async def cond(t, result):
-                        return await run.ahit(sid, "post")
-
-                else:
-
-                    def cond(t, result):
-                        return run.ahit(sid, "post")
-
-        cond.__name__ = "c_" + _san(sid)
-        return cond
-
-    def _capture(self, sid, s):
-        run = self.run
-        style = s.get("style", "sync")
+        ns = {"_hit": lambda: run.hit(sid, kind), "_ahit": lambda: run.ahit(sid, kind)}
+        plist = ", ".join(params)
         if style == "sync":
-
-            def cap(t):
-                return run.hit(sid, "snap")
-
+            src = "def %s(%s):\n    return _hit()\n" % (name, plist)
         elif style == "async":
-
-            async def cap(t):
-                return await run.ahit(sid, "snap")
-
+            src = "async def %s(%s):\n    return await _ahit()\n" % (name, plist)
         else:
+            src = "def %s(%s):\n    return _ahit()\n" % (name, plist)
+        exec(src, ns)  # pylint: disable=exec-used
+        return ns[name]
 
-            def cap(t):
-                return run.ahit(sid, "snap")
-
-        cap.__name__ = "s_" + _san(sid)
-        return cap
-
-    def _decorate(self, raw, owner, spec, inherited_snaps=False):
+    def _decorate(self, raw, owner, spec, params=("t",)):
         """Apply ensure / snapshot / require decorators of ``spec`` to ``raw`` (nearest first)."""
         fn = raw
         post = spec.get("post", ())
-        snaps = spec.get("snaps", ()) if post else ()
+        snaps = spec.get("snaps", ()) if (post or spec.get("force_snaps")) else ()
         has_old = bool(snaps) or bool(spec.get("old_inherited"))
+        pparams = tuple(params) + ("result",) + (("OLD",) if has_old else ())
         for i, c in enumerate(post):
             sid = "%s/post%d" % (owner, i)
             dec = icontract.ensure(
-                self._cond(sid, "post", c, has_old),
+                self._fn("c_" + _san(sid), pparams, c.get("style", "sync"), sid, "post"),
                 description="[[%s]]" % sid,
                 enabled=True,
                 **self._error_kw(sid, c.get("error"), False)
             )
             fn = dec(fn)
             self.contracts[sid] = dec._contract
-        for i, s in enumerate(snaps):
+        for i, sn in enumerate(snaps):
             sid = "%s/snap%d" % (owner, i)
-            dec = icontract.snapshot(self._capture(sid, s), name="s_" + _san(sid), enabled=True)
+            dec = icontract.snapshot(
+                self._fn("s_" + _san(sid), params, sn.get("style", "sync"), sid, "snap"), name=sn.get("name") or ("s_" + _san(sid)), enabled=True
+            )
             fn = dec(fn)
             self.contracts[sid] = dec._snapshot
         for i, c in enumerate(spec.get("pre", ())):
             sid = "%s/pre%d" % (owner, i)
             dec = icontract.require(
-                self._cond(sid, "pre", c, False),
+                self._fn("c_" + _san(sid), params, c.get("style", "sync"), sid, "pre"),
                 description="[[%s]]" % sid,
                 enabled=True,
                 **self._error_kw(sid, c.get("error"), False)
@@ -817,6 +766,29 @@ class World:
         kind = ms.get("kind", "method")
         name = ms["name"]
         owner = "%s.%s" % (cname, name)
+        if kind == "alias":
+            k, m = ms["of"].split(".")
+            return self.classes[k].__dict__[m]
+        if kind == "prop":
+
+            def fget(self):
+                return run.body(self)
+
+            fget.__name__ = name
+            fget.__qualname__ = owner
+            run.idmap[id(fget)] = owner
+            g = self._decorate(fget, owner, ms, params=("self",))
+            fset = None
+            if ms.get("setter") is not None:
+
+                def fset(self, value):
+                    run.body(self)
+
+                fset.__name__ = name
+                fset.__qualname__ = owner + ".set"
+                run.idmap[id(fset)] = owner + ".set"
+                fset = self._decorate(fset, owner + ".set", ms["setter"], params=("self", "value"))
+            return property(g, fset)
         if kind == "method":
             if ms.get("async"):
 
@@ -1000,6 +972,18 @@ class World:
                 return (lambda: getattr(obj, fn)(t)), self.defining_unit(cls, fn), None
             tx.info = self._info(raw, cls, "method")
             return (lambda: getattr(obj, fn)(t)), self.defining_unit(cls, fn), td["obj"]
+        if op in ("get", "set"):
+            raw = None
+            for k in cls.__mro__:
+                if fn in k.__dict__:
+                    raw = k.__dict__[fn]
+                    break
+            acc = raw.fget if op == "get" else raw.fset
+            tx.info = self._info(acc, cls, "prop")
+            unit = self.defining_unit(cls, fn) + (".set" if op == "set" else "")
+            if op == "get":
+                return (lambda: getattr(obj, fn)), unit, td["obj"]
+            return (lambda: setattr(obj, fn, t)), unit, td["obj"]
         raise HarnessError("unknown op %r" % op)
 
 
